@@ -1,6 +1,6 @@
 (* C07  ISV and JFA enrolment climbs to the joint posterior mode of the latent factors. *)
 From Coq Require Import Reals List.
-From BLE Require Import Num.InstR Model.FA Proofs.RLemmas Proofs.FAEnroll.
+From BLE Require Import Num.InstR Model.FA Proofs.RLemmas Proofs.FAEnroll Proofs.FAEnrollConv.
 Import ListNotations FR.
 Open Scope R_scope.
 
@@ -55,6 +55,44 @@ Theorem C07_fixed_point_is_the_unique_mode (xs : list (list R)) (y z : list R) :
     logpost D u F X (Some y2) xs2 z2 <= logpost D u F X (Some y) xs z
     /\ (logpost D u F X (Some y2) xs2 z2 = logpost D u F X (Some y) xs z -> xs2 = xs /\ y2 = y /\ z2 = z).
 Proof. exact (jfa_fixed_point_is_mode inv C D rU rV u F X Hu HF HX Hinv_x Hinv_y xs y z). Qed.
+
+(* Last clause of the property: the unique joint posterior mode EXISTS and the enrolment iterates converge to it (in squared Euclidean
+   distance over all factors), for JFA and for ISV; in particular the factors enrolment returns converge to the mode's. *)
+Theorem C07_jfa_enrolment_converges_to_the_unique_mode :
+  exists xs y z,
+    st_ok C D rU rV X (xs, y, z)
+    /\ (forall xs2 y2 z2, st_ok C D rU rV X (xs2, y2, z2) ->
+          logpost D u F X (Some y2) xs2 z2 <= logpost D u F X (Some y) xs z
+          /\ (logpost D u F X (Some y2) xs2 z2 = logpost D u F X (Some y) xs z -> xs2 = xs /\ y2 = y /\ z2 = z))
+    /\ (forall eps, 0 < eps -> exists K, forall k, (K <= k)%nat ->
+          jfa_dist2 (jfa_state inv C D rU rV u F X k) (xs, y, z) < eps).
+Proof. exact (jfa_enroll_converges inv C D rU rV u F X Hu HF HX Hinv_x Hinv_y). Qed.
+
+Theorem C07_isv_enrolment_converges_to_the_unique_mode :
+  exists xs z,
+    length xs = length X /\ Forall (fun x => length x = rU) xs /\ length z = (C * D)%nat
+    /\ (forall xs2 z2, length xs2 = length X -> Forall (fun x => length x = rU) xs2 -> length z2 = (C * D)%nat ->
+          logpost D u F X None xs2 z2 <= logpost D u F X None xs z
+          /\ (logpost D u F X None xs2 z2 = logpost D u F X None xs z -> xs2 = xs /\ z2 = z))
+    /\ (forall eps, 0 < eps -> exists K, forall k, (K <= k)%nat ->
+          isv_dist2 (isv_state inv C D rU u F X k) (xs, z) < eps).
+Proof. exact (isv_enroll_converges inv C D rU rV u F X Hu HF HX Hinv_x). Qed.
+
+Theorem C07_returned_isv_factors_converge_to_the_mode :
+  exists xs z,
+    length xs = length X /\ Forall (fun x => length x = rU) xs /\ length z = (C * D)%nat
+    /\ (forall xs2 z2, length xs2 = length X -> Forall (fun x => length x = rU) xs2 -> length z2 = (C * D)%nat ->
+          logpost D u F X None xs2 z2 <= logpost D u F X None xs z)
+    /\ (forall eps, 0 < eps -> exists K, forall k, (K <= k)%nat -> sqd (isv_enroll inv k rU D u F X) z < eps).
+Proof. exact (isv_enroll_returned_converges inv C D rU rV u F X Hu HF HX Hinv_x). Qed.
+
+Theorem C07_returned_jfa_factors_converge_to_the_mode :
+  exists xs y z,
+    st_ok C D rU rV X (xs, y, z)
+    /\ (forall xs2 y2 z2, st_ok C D rU rV X (xs2, y2, z2) -> logpost D u F X (Some y2) xs2 z2 <= logpost D u F X (Some y) xs z)
+    /\ (forall eps, 0 < eps -> exists K, forall k, (K <= k)%nat ->
+          sqd (fst (jfa_enroll inv k rU rV D u F X)) y + sqd (snd (jfa_enroll inv k rU rV D u F X)) z < eps).
+Proof. exact (jfa_enroll_returned_converges inv C D rU rV u F X Hu HF HX Hinv_x Hinv_y). Qed.
 End C07.
 Print Assumptions C07_z_update_is_block_argmax.
 Print Assumptions C07_x_update_is_block_argmax.
@@ -62,3 +100,7 @@ Print Assumptions C07_y_update_is_block_argmax.
 Print Assumptions C07_isv_enrolment_monotone.
 Print Assumptions C07_jfa_enrolment_monotone.
 Print Assumptions C07_fixed_point_is_the_unique_mode.
+Print Assumptions C07_jfa_enrolment_converges_to_the_unique_mode.
+Print Assumptions C07_isv_enrolment_converges_to_the_unique_mode.
+Print Assumptions C07_returned_isv_factors_converge_to_the_mode.
+Print Assumptions C07_returned_jfa_factors_converge_to_the_mode.
